@@ -22,7 +22,7 @@ LEVEL = "model_checking"
 GRAIN = 8
 CELL = GRAIN * 512
 
-NAMES = {"plain": "disk-s{:03d}.vmdk", "spaces": "my disk (copy 2) - s{:03d}.vmdk", "unicode": "dïsk-✓-😀 s{:03d}.vmdk"}
+NAMES = {"plain": "disk-s{:03d}.vmdk", "spaces": 'win "C" drive (copy 2) - s{:03d}.vmdk', "unicode": "dïsk-✓-😀 s{:03d}.vmdk"}
 
 
 def _extent_file(e, i, rng, cell=CELL, grain=GRAIN):
